@@ -3,7 +3,7 @@ C07: free parameters.  `genRun [] c L free t xs ps` (the generated function with
 extra arguments) equals `callRhs (setPars c free ps) t xs` (the model with those parameters set).
 Core Lean only.
 -/
-import MxlVerif.Lemmas.C07Main
+import MxlVerif.Lemmas.C07MainV
 namespace Mxl.C07
 open Mxl
 
@@ -170,67 +170,93 @@ theorem mapM_getPairs_ok {e : Env} : ∀ (l : List Name), (∀ k ∈ l, ∃ v, e
     simp only [List.mapM_cons, Env.get_of_lookup hv, bind, Except.bind, pure, Except.pure] at hr ⊢
     simp [hr]
 
+theorem keys_split : ∀ (m : List (Name × Val)) (a : Name), a ∈ omKeys m →
+    a ∈ (plainOf m).map (·.1) ∨ a ∈ (iaOf m).map (·.1) := by
+  intro m; induction m with
+  | nil => intro a h; cases h
+  | cons kv rest ih =>
+    intro a h
+    obtain ⟨k, v⟩ := kv
+    simp only [omKeys, List.map_cons, List.mem_cons] at h
+    cases v with
+    | plain q =>
+      simp only [plainOf, iaOf, List.filterMap_cons, List.map_cons, List.mem_cons]
+      rcases h with h | h
+      · exact Or.inl (Or.inl h)
+      · exact (ih a h).imp (fun x => Or.inr x) id
+    | ia f =>
+      simp only [plainOf, iaOf, List.filterMap_cons, List.map_cons, List.mem_cons]
+      rcases h with h | h
+      · exact Or.inr (Or.inl h)
+      · exact (ih a h).imp id (fun x => Or.inr x)
+
 /-- the outcome of `createCache` in terms of the sort and the time-zero evaluation -/
-theorem createCache_cases {c : Content} (hok : Ok c) :
+theorem createCache_cases {c : Content} (hok : OkV c) :
     (∀ e, sortDeps c.available c.deps = .error e → createCache c = .error e) ∧
     (∀ order e, sortDeps c.available c.deps = .ok order →
-        evalSeq (defsOf c order) (baseEnv (plainOf c.pars) (plainOf c.vars) [] 0) = .error e →
+        evalSeq (defsE c order) (baseEnv (plainOf c.pars) (plainOf c.vars) [] 0) = .error e →
         createCache c = .error e) ∧
     (∀ order dep, sortDeps c.available c.deps = .ok order →
-        evalSeq (defsOf c order) (baseEnv (plainOf c.pars) (plainOf c.vars) [] 0) = .ok dep →
+        evalSeq (defsE c order) (baseEnv (plainOf c.pars) (plainOf c.vars) [] 0) = .ok dep →
         ∃ cache, createCache c = .ok cache ∧ cache.order = order ∧ cache.basePars = plainOf c.pars
           ∧ omKeys cache.init = omKeys c.vars) := by
   have hn := hok.names
-  have hVk : (plainOf c.vars).map (·.1) = omKeys c.vars := keys_plainOf hok.iaV
   refine ⟨?_, ?_, ?_⟩
   · intro e h
     simp [createCache, h, bind, Except.bind]
   · intro order e hs he
-    obtain ⟨_, homem⟩ := order_facts hok hs
-    have hokind : ∀ k ∈ order, k ∈ omKeys c.derived ∨ k ∈ omKeys c.rxns := fun k hk => (homem k).mp hk
-    have := evalInOrder_defs hok c.toSort (toSort_lookup hok) hokind
+    obtain ⟨_, homem⟩ := order_factsV hok hs
+    have := evalInOrder_defsE hok (fun k hk => (homem k).mp hk)
       (baseEnv (plainOf c.pars) (plainOf c.vars) c.data 0)
     rw [hok.data, he] at this
     simp [createCache, hs, hok.data, this, bind, Except.bind]
   · intro order dep hs he
-    obtain ⟨hond, homem⟩ := order_facts hok hs
-    have hokind : ∀ k ∈ order, k ∈ omKeys c.derived ∨ k ∈ omKeys c.rxns := fun k hk => (homem k).mp hk
-    have hev := evalInOrder_defs hok c.toSort (toSort_lookup hok) hokind
-      (baseEnv (plainOf c.pars) (plainOf c.vars) c.data 0)
+    obtain ⟨hond, homem⟩ := order_factsV hok hs
+    have hokind : ∀ k ∈ order, k ∈ (iaOf c.vars).map (·.1) ∨ k ∈ omKeys c.derived ∨ k ∈ omKeys c.rxns :=
+      fun k hk => (homem k).mp hk
+    have hev := evalInOrder_defsE hok hokind (baseEnv (plainOf c.pars) (plainOf c.vars) c.data 0)
     rw [hok.data, he] at hev
-    have hdk : (defsOf c order).map (·.1) = order := (mapM_defOf hok hokind).2
-    have hord_np : ∀ k ∈ order, k ∉ omKeys c.pars := fun k hk hp =>
-      (hokind k hk).elim (hn.pd k hp) (hn.pr k hp)
-    have hord_nv : ∀ k ∈ order, k ∉ omKeys c.vars := fun k hk hv =>
-      (hokind k hk).elim (hn.vd k hv) (hn.vr k hv)
-    obtain ⟨apn', hcls, _, _, _⟩ := classify_spec c hok.surs order [] [] (omKeys c.pars) hond
-      (fun k hk => ⟨hord_np k hk, hord_nv k hk, hord_np k hk⟩)
-      (fun k hk => (hokind k hk).elim (fun h => Or.inr (lookup_some_of_mem_keys h)) Or.inl)
+    have hdE : (defsE c order).map (·.1) = order := (mapM_defOfE hok hokind).2
+    have hord_np : ∀ k ∈ order, k ∉ omKeys c.pars := by
+      intro k hk hp
+      rcases hokind k hk with h | h | h
+      · exact hn.vp k (keys_iaOf_sub _ _ h) hp
+      · exact hn.pd k hp h
+      · exact hn.pr k hp h
+    obtain ⟨apn', hcls, _, _, _⟩ := classify_specV c hok.surs order [] [] (omKeys c.pars) hond
+      (fun k hk => ⟨hord_np k hk, hord_np k hk⟩)
+      (fun k _ hv => hn.vr k hv)
+      (fun k hk => by
+        rcases hokind k hk with h | h | h
+        · exact Or.inr (Or.inl (keys_iaOf_sub _ _ h))
+        · exact Or.inr (Or.inr (lookup_some_of_mem_keys h))
+        · exact Or.inl h)
     have hall : c.allStoich = c.rxns.map fun kv => (kv.1, kv.2.stoich) := by
       simp [Content.allStoich, hok.surs]
     obtain ⟨tab, htab1, _⟩ := addRxns_num apn' dep (c.rxns.map fun kv => (kv.1, kv.2.stoich)) []
       (by rw [List.all_map]; exact hok.num)
-    -- initial conditions and static values are all bound
     have hdep_order : ∀ k ∈ order, ∃ w, dep.lookup k = some w := by
       intro k hk
-      have : k ∈ (defsOf c order).map (·.1) := by rw [hdk]; exact hk
+      have : k ∈ (defsE c order).map (·.1) := by rw [hdE]; exact hk
       obtain ⟨kf, hkf, hke⟩ := List.mem_map.mp this
       exact hke ▸ evalSeq_sets he kf hkf
     have hdep_vars : ∀ k ∈ omKeys c.vars, ∃ w, dep.lookup k = some w := by
       intro k hk
-      refine evalSeq_keys_mono he ?_
-      rw [lookup_isSome_iff]
-      simp only [baseEnv, List.reverse_nil, List.nil_append, List.map_cons, List.map_append, List.map_reverse,
-        List.mem_cons, List.mem_append, List.mem_reverse, hVk]
-      exact Or.inr (Or.inl hk)
+      rcases keys_split c.vars k hk with h | h
+      · refine evalSeq_keys_mono he ?_
+        rw [lookup_isSome_iff]
+        simp only [baseEnv, List.reverse_nil, List.nil_append, List.map_cons, List.map_append, List.map_reverse,
+          List.mem_cons, List.mem_append, List.mem_reverse]
+        exact Or.inr (Or.inl h)
+      · exact hdep_order k ((homem k).mpr (Or.inl h))
     obtain ⟨init, hinit⟩ := mapM_getPairs_ok (e := dep) (omKeys c.vars) hdep_vars
     obtain ⟨extra, hextra⟩ := mapM_getPairs_ok (e := dep)
-      ((order.filter fun k => apn'.contains k).filter fun k => !(omKeys c.vars).contains k)
+      ((order.filter fun k => (omKeys c.vars).contains k || apn'.contains k).filter
+        fun k => !(omKeys c.vars).contains k)
       (fun k hk => hdep_order k (List.mem_filter.mp (List.mem_filter.mp hk).1).1)
-    refine ⟨{ order := order, varNames := omKeys c.vars,
-               dynOrder := order.filter fun k => !apn'.contains k, basePars := plainOf c.pars,
-               allPars := omUnion (plainOf c.pars) extra, stoich := tab, dynStoich := [], init := init },
-      ?_, rfl, rfl, ?_⟩
+    refine ⟨Cache.mk order (omKeys c.vars)
+              (order.filter fun k => !((omKeys c.vars).contains k || apn'.contains k)) (plainOf c.pars)
+              (omUnion (plainOf c.pars) extra) tab [] init, ?_, rfl, rfl, ?_⟩
     · simp only [createCache, hs, hok.data, hev, hcls, hall, htab1, bind, Except.bind, List.reverse_nil,
         List.nil_append]
       simp only [bind, Except.bind, pure, Except.pure] at hinit hextra ⊢
@@ -297,21 +323,20 @@ theorem setPars_pars (c : Content) (free : List Name) (ps : List Rat) :
 theorem keys_zip' {free : List Name} {ps : List Rat} (h : ps.length = free.length) :
     (free.zip ps).map (·.1) = free := List.map_fst_zip (Nat.le_of_eq h.symm)
 
-theorem setPars_ok {c : Content} (hok : Ok c) {free : List Name} {ps : List Rat} (hf : FreeOk c free ps) :
-    Ok (setPars c free ps) ∧ omKeys (setPars c free ps).pars = omKeys c.pars := by
+theorem setPars_ok {c : Content} (hok : OkV c) {free : List Name} {ps : List Rat} (hf : FreeOk c free ps) :
+    OkV (setPars c free ps) ∧ omKeys (setPars c free ps).pars = omKeys c.pars := by
   obtain ⟨h1, h2, _⟩ := setParsList_spec (free.zip ps) c.pars (by rw [keys_zip' hf.len]; exact hf.nd)
     (by rw [keys_zip' hf.len]; exact hf.sub) hok.iaP
   have hk : omKeys (setPars c free ps).pars = omKeys c.pars := by rw [setPars_pars]; exact h1
   refine ⟨?_, hk⟩
-  exact { surs := hok.surs, data := hok.data, iaV := hok.iaV, iaP := by rw [setPars_pars]; exact h2,
+  exact { surs := hok.surs, data := hok.data, iaP := by rw [setPars_pars]; exact h2,
           num := hok.num, nd := by rw [hk]; exact hok.nd, stNd := hok.stNd, eqs := hok.eqs,
           onVars := hok.onVars, nonempty := hok.nonempty }
 
-theorem setPars_static {c : Content} (hok : Ok c) {free : List Name} {ps : List Rat} (hf : FreeOk c free ps) :
-    (setPars c free ps).available = c.available ∧ (setPars c free ps).deps = c.deps
-      ∧ (∀ o, defsOf (setPars c free ps) o = defsOf c o) := by
+theorem setPars_static {c : Content} (hok : OkV c) {free : List Name} {ps : List Rat} (hf : FreeOk c free ps) :
+    (setPars c free ps).available = c.available ∧ (setPars c free ps).deps = c.deps := by
   obtain ⟨hok', hk⟩ := setPars_ok hok hf
-  refine ⟨?_, ?_, fun o => rfl⟩
+  refine ⟨?_, ?_⟩
   · have h1 : omKeys (plainOf (setPars c free ps).pars) = omKeys (plainOf c.pars) := by
       have a := keys_plainOf hok'.iaP
       have b := keys_plainOf hok.iaP
@@ -381,7 +406,7 @@ def progOf (c : Content) (L : Lang) (order : List Name) (free : List Name) (cons
     retBracket := (templateOf L).retBracket
     retLen := if (templateOf L).sizedRet then some (omKeys c.vars).length else none }
 
-theorem genModel_free_ok {c : Content} (hok : Ok c) {L : Lang} (hL : L ≠ .jl) {cache : Cache}
+theorem genModel_free_ok {c : Content} (hok : OkV c) {L : Lang} (hL : L ≠ .jl) {cache : Cache}
     (hcc : createCache c = .ok cache) (hinit : omKeys cache.init = omKeys c.vars)
     {free : List Name} {prem : List (Name × Rat)} (hpop : popAll cache.basePars free = .ok prem) :
     genModel [] c L free = .ok (progOf c L cache.order free prem) := by
@@ -394,7 +419,7 @@ def tailOf (c : Content) (order : List Name) : List (Name × Rhs) :=
   ((defsOf c order).map fun kf => (kf.1, Rhs.app kf.2))
     ++ ((diffEqs c.rxns).map fun vs => (dName vs.1, Rhs.lin vs.2))
 
-theorem runSLP_progOf {c : Content} (hok : Ok c) {L : Lang} (hL : L ≠ .jl) (order free : List Name)
+theorem runSLP_progOf {c : Content} (hok : OkV c) {L : Lang} (hL : L ≠ .jl) (order free : List Name)
     (consts : List (Name × Rat)) (t : Rat) (xs ps : List Rat)
     (hxs : xs.length = c.vars.length) (hps : ps.length = free.length)
     (hne : (diffEqs c.rxns).isEmpty = false) :
@@ -417,7 +442,7 @@ theorem runSLP_progOf {c : Content} (hok : Ok c) {L : Lang} (hL : L ≠ .jl) (or
   simp only [Except.bind, tailOf, List.append_assoc]
   rfl
 
-theorem diffEqs_nonempty {c : Content} (hok : Ok c) : (diffEqs c.rxns).isEmpty = false := by
+theorem diffEqs_nonempty {c : Content} (hok : OkV c) : (diffEqs c.rxns).isEmpty = false := by
   cases hv : c.vars with
   | nil => exact absurd hv hok.nonempty
   | cons a as =>
@@ -443,10 +468,11 @@ theorem baseEnv_sameKeys {P P' V : List (Name × Rat)} (h : P.map (·.1) = P'.ma
 
 /-- the generated function with free parameters = the generated function of the model with those parameters set -/
 theorem genRun_free (c : Content) (L : Lang) (free : List Name) (t : Rat) (xs ps : List Rat)
-    (hL : L ≠ .jl) (hok : Ok c) (hf : FreeOk c free ps) (hxs : xs.length = c.vars.length) :
+    (hL : L ≠ .jl) (hok : OkV c) (hf : FreeOk c free ps) (hxs : xs.length = c.vars.length) :
     genRun [] c L free t xs ps = genRun [] (setPars c free ps) L [] t xs [] := by
   obtain ⟨hok', hk'⟩ := setPars_ok hok hf
-  obtain ⟨hav, hdeps, hdefs⟩ := setPars_static hok hf
+  obtain ⟨hav, hdeps⟩ := setPars_static hok hf
+  have hdefs : ∀ o, defsE (setPars c free ps) o = defsE c o := fun o => rfl
   obtain ⟨c1, c2, c3⟩ := createCache_cases hok
   obtain ⟨d1, d2, d3⟩ := createCache_cases hok'
   rw [hav, hdeps] at d1 d2 d3
@@ -457,7 +483,7 @@ theorem genRun_free (c : Content) (L : Lang) (free : List Name) (t : Rat) (xs ps
   | error e =>
     simp [genRun, genModel, c1 e hs, d1 e hs, bind, Except.bind]
   | ok order =>
-    rcases evalSeq_sameKeys (defsOf c order)
+    rcases evalSeq_sameKeys (defsE c order)
       (baseEnv_sameKeys (P := plainOf c.pars) (P' := plainOf (setPars c free ps).pars) (V := plainOf c.vars)
         (by rw [hPk, hPk'])) with ⟨dep, dep', he, he', _⟩ | ⟨err, he, he'⟩
     · obtain ⟨cache, hcc, hord, hbp, hinit⟩ := c3 order dep hs he
@@ -608,9 +634,9 @@ theorem FreeOk.of_B {c : Content} {free : List Name} {ps : List Rat} (h : freeOk
 /-- **free parameters**: the generated function called with values for the free parameters returns what the
     model returns after `update_parameters` with those values -/
 theorem equiv_free (c : Content) (L : Lang) (free : List Name) (t : Rat) (xs ps : List Rat)
-    (hL : L ≠ .jl) (hok : Ok c) (hf : FreeOk c free ps) (hxs : xs.length = c.vars.length) :
+    (hL : L ≠ .jl) (hok : OkV c) (hf : FreeOk c free ps) (hxs : xs.length = c.vars.length) :
     genRun [] c L free t xs ps = callRhs (setPars c free ps) t xs := by
   rw [genRun_free c L free t xs ps hL hok hf hxs]
-  exact equiv_main _ L t xs hL (setPars_ok hok hf).1 hxs
+  exact equiv_mainV _ L t xs hL (setPars_ok hok hf).1 hxs
 
 end Mxl.C07
